@@ -5,7 +5,7 @@ cd /repo || exit 2
 git apply --check "$P" || { echo "patch does not apply"; exit 2; }
 git apply "$P"
 for c in "$@"; do
-  (cd /verif && ./bin/check "$c" 2>&1 | grep -E "^(VIOLATION|OK|UNDECIDED|KNOWN|BOUNDED|failed obligation|bounded stand-in)" | cut -c1-260 | head -6; )
+  (cd /verif && ./bin/check "$c" > /tmp/seedcheck.$$ 2>&1; grep -E "^(failed obligation|bounded stand-in)" /tmp/seedcheck.$$ | cut -c1-260 | head -3; grep -E "^(VIOLATION|OK|UNDECIDED|KNOWN|BOUNDED)" /tmp/seedcheck.$$ | cut -c1-260 | head -4; rm -f /tmp/seedcheck.$$)
 done
-git -C /repo checkout -- . 
+git -C /repo checkout -- .
 git -C /repo status --short | head -3
